@@ -6,10 +6,11 @@ import (
 )
 
 // txFacts checks the transaction discipline of a store write function:
-//   one  = exactly one <x>.Begin() call
-//   noDB = after it, no method is called on sdb.db (everything goes through the transaction)
-//   rb   = every return statement between Begin and Commit (closures excluded) is directly preceded by rollback()
-//   last = "err = tx.Commit()" is followed only by "if err != nil { return err }" and "return nil"
+//
+//	one  = exactly one <x>.Begin() call
+//	noDB = after it, no method is called on sdb.db (everything goes through the transaction)
+//	rb   = every return statement between Begin and Commit (closures excluded) is directly preceded by rollback()
+//	last = "err = tx.Commit()" is followed only by "if err != nil { return err }" and "return nil"
 func txFacts(rel, fn string) (one, noDB, rb, last bool) {
 	fd := funcDecl(rel, fn)
 	if fd == nil {
